@@ -69,5 +69,5 @@ def run(args):
     rep.units = rr.tags
     rep.trusted = ["clang 14 AST / constant folding", "Eigen block API semantics"]
     rep.assumptions = ["NOT decided: rjac = series of ad beyond order 4, rjacinv*rjac = I, Adj(exp t) = ljac*rjacinv as numerical statements; rounding behaviour above the switch-over"]
-    rep.checker_cmd = "manif-sa plugin (mode=funcs) + engine/rules_out.py"
+    rep.checker_cmd = "manif-sa plugin (mode=funcs) + engine/rules_out.py (dataflow) + rules_table.py + rules_poly.py (R-POLY.adj) + rules_jet.py (R-JET) + jetnum.py / rules_series.py (R-SERIES)"
     return rep.finish()
